@@ -4,6 +4,9 @@ use crate::engine::{CaseResult, Ctx};
 
 pub mod c01;
 pub mod c03;
+pub mod c07;
+pub mod c12;
+pub mod c13;
 pub mod c14;
 pub mod c15;
 pub mod c16;
@@ -11,12 +14,15 @@ pub mod c17;
 pub mod c18;
 pub mod c19;
 
-pub const ALL: &[&str] = &["C01", "C03", "C14", "C15", "C16", "C17", "C18", "C19"];
+pub const ALL: &[&str] = &["C01", "C03", "C07", "C12", "C13", "C14", "C15", "C16", "C17", "C18", "C19"];
 
 pub fn run(c: &Ctx) -> bool {
     match c.prop.as_str() {
         "C01" => c01::run(c),
         "C03" => c03::run(c),
+        "C07" => c07::run(c),
+        "C12" => c12::run(c),
+        "C13" => c13::run(c),
         "C14" => c14::run(c),
         "C15" => c15::run(c),
         "C16" => c16::run(c),
@@ -32,6 +38,9 @@ pub fn replay(prop: &str, kind: &str, case: &Value) -> Option<CaseResult> {
     match prop {
         "C01" => c01::replay(kind, case),
         "C03" => c03::replay(kind, case),
+        "C07" => c07::replay(kind, case),
+        "C12" => c12::replay(kind, case),
+        "C13" => c13::replay(kind, case),
         "C14" => c14::replay(kind, case),
         "C15" => c15::replay(kind, case),
         "C16" => c16::replay(kind, case),
